@@ -1,7 +1,7 @@
 """C11 -- parsed Verilog and bench netlists simulate as the described netlist."""
 import random
 
-from harness import circgen as cg, vlog_corr as vc, vlog_gen as vg, bench_text as bt
+from harness import circgen as cg, vlog_corr as vc, vlog_gen as vg, bench_text as bt, vlog_text as vt
 
 THEOREMS = ['C11_range_names', 'C11_range_ends', 'C11_range_single', 'C11_bitname_inj', 'C11_bus_names_nodup',
             'C11_sized_const', 'C11_const_bits_msb_first', 'C11_concat_flatten', 'C11_port_positions', 'C11_io_order',
@@ -15,7 +15,14 @@ THEOREMS = ['C11_range_names', 'C11_range_ends', 'C11_range_single', 'C11_bitnam
             'C11_module_pin_out', 'C11_module_pin_in', 'C11_module_pins_only', 'C11_module_bit0_lookup_refuted', 'C11_module_bit0_lookup_fixed',
             'C11_module_assign', 'C11_module_outputs', 'C11_module_example', 'C11_module_example_theorems',
             'C11_module_branchforks', 'C11_module_branchforks_sets', 'C11_module_branchforks_example',
-            'C11_module_branchforks_name_clash_refuted', 'C11_module_libs_ok', 'C11_module_pin_dict']
+            'C11_module_branchforks_name_clash_refuted', 'C11_module_libs_ok', 'C11_module_pin_dict',
+            # verilog.py from TEXT (Model/VerilogText.v)
+            'C11_vtext_lex_render', 'C11_vtext_parse_render', 'C11_vtext_ignored_irrelevant', 'C11_vtext_token_language', 'C11_vtext_lex_iff', 'C11_vtext_language',
+            'C11_vtext_tokens_of_tree',
+            'C11_vtext_any_rendering', 'C11_vtext_parse_print', 'C11_vtext_open_ignored_rejected', 'C11_vtext_eof_line_comment_rejected',
+            'C11_vtext_eof_comment_witness', 'C11_vtext_lexer_probes', 'C11_vtext_pin_dict', 'C11_vtext_pin_entry', 'C11_vtext_circuits',
+            'C11_vtext_circuits_of_rendering', 'C11_text_module_consistent', 'C11_text_module_ports', 'C11_text_module_pin_in',
+            'C11_text_module_pin_out', 'C11_text_module_assign', 'C11_text_module_outputs', 'C11_vtext_example']
 
 WHAT = {
     'parse-raises': 'a netlist in the supported subset is rejected',
@@ -107,6 +114,7 @@ def run(ck):
                   f'failing cases {tbad[:8]} {[tmeta[b] for b in tbad[:2]]} {terr}')
     # ---- oracle: generated netlists -------------------------------------------------------------------------------
     n_main = ck.scale(330, 9000)
+    vnet_texts = []       # (verilog text, library) of generated netlists for the text-level correspondence
     bench_cases = []
     n_bench = 0
     mod_cases, mod_meta = [], []          # VerilogTransformer.module: (coq case, description)
@@ -142,6 +150,8 @@ def run(ck):
         if i < n_mod_net:
             for bf in (False, True):
                 add_module_cases(text, getattr(_tl, lib), bf, {'stream': 'netlist:' + lib})
+        if len(vnet_texts) < ck.scale(50, 900):
+            vnet_texts.append((text, lib))
         if i < 2:
             ck.sample({'library': lib, 'verilog': text[:400], 'bench': (b[0][:200] if b else None)})
     # statement-order and 1-bit-bus streams (inside the property's quantifier)
@@ -251,9 +261,9 @@ def run(ck):
             'bus ports / wires (ascending, descending, offsets, 1-bit), bit / part selects, concatenations (nested), sized constants b/d/h with '
             'truncation, assigns, escaped identifiers, comments / attributes, white space, shuffled statements and pins, unconnected outputs, '
             'constants on pins; exhaustive truth tables up to 10 inputs+states, else 256 patterns; helper methods on random tokens incl. invalid ones')
-    ck.trust('NOT modelled: the lark grammar / lexer of verilog.py (text -> tree), lark itself (bench.py: its behaviour on bench.GRAMMAR is transcribed in '
-             'Model/BenchText.v and compared on every run, code points < 256), Circuit.substitute / resolve_tlib_cells after parsing: covered by the '
-             'generator-owned differential oracle only',
+    ck.trust('NOT modelled: lark itself (its behaviour on verilog.GRAMMAR and bench.GRAMMAR is transcribed in Model/VerilogText.v / Model/BenchText.v and '
+             'compared on every run incl. its parse / scanner tables, code points < 256), Circuit.substitute / resolve_tlib_cells after parsing: covered by '
+             'the generator-owned differential oracle only; int() of sized constants inside ESCAPED identifiers with sign / underscore / white space',
              'modelled, not verified: VerilogTransformer.range/sigsel/concat, SignalDeclaration.names, declaration (Model/VerilogElab.v), '
              'VerilogTransformer.instantiation and the whole of VerilogTransformer.module: passes 0, 1, 1.5, 2 and the output loop on the Node/Line/io_nodes '
              'model of C09 (Model/VerilogModule.v; the arguments of module are intercepted from the real parser), TechLib pin tables (Model/VerilogLibPins.v), '
@@ -265,6 +275,116 @@ def run(ck):
              'cell functions of the oracle are the datasheet families of C19 (family_of / family_fn); a floating cell input has no defined value and is '
              'not generated; an escaped scalar \\\\k[7]  and bit 7 of a bus k are the same name for kyupy: such collisions are not generated')
     ck.assumptions.append('theorems range over the transcribed helper functions; ranges use non-negative bounds (the lexer admits digits only)')
+    # ---- verilog.py TEXT level: lark (contextual lexer + LALR parser, raw tree) against parse_verilog; verilog.parse against circuits_of_text ----
+    import time as _time
+    _t0 = _time.time()
+    trng = random.Random(ck.seed * 7919 + 1111)
+    vcases, vmeta = [], []
+    tab_cases, tab_meta, tab_fails = vt.table_cases()
+    vcases += tab_cases
+    vmeta += tab_meta
+    ck.count(len(tab_cases), 'vtext:lark-tables')
+    for tf in tab_fails:
+        fails.append(('verilog-text:tables', 'verilog.GRAMMAR under lark differs from the transcription in Model/VerilogText.v: ' + tf,
+                      {'component': 'verilog.GRAMMAR / lark tables', 'input': {'kind': 'vlog-tables'}, 'actual': tf}))
+    v_rej = {'rendered': 0, 'malformed': 0, 'soup': 0, 'netlist-mutated': 0}
+
+    def add_vtext(c, d, of):
+        ck.count(1, 'vtext:' + d['stream'] + (':lark-raises' if d['raises'] else ''))
+        ck.nontrivial(('vtext', d['text'][:160]))
+        if d['raises'] and d['stream'] in v_rej:
+            v_rej[d['stream']] += 1
+        if of:
+            fails.append(('verilog-text:' + d['stream'], 'verilog.py grammar: ' + of, {'component': 'verilog.GRAMMAR / lark', 'input': d, 'actual': of}))
+        vcases.append(c)
+        vmeta.append(d)
+    for _ in range(ck.scale(340, 8000)):
+        add_vtext(*vt.text_case(trng))
+    for text in vt.CORNER_TEXTS:
+        add_vtext(*vt.text_case(trng, text, 'corner'))
+    for text, lib in vnet_texts:
+        add_vtext(*vt.text_case(trng, text, 'netlist'))
+        add_vtext(*vt.text_case(trng, vt.mutate_chars(text, trng), 'netlist-mutated'))
+    for _ in range(ck.scale(40, 600)):
+        c, d, of = vt.print_case(trng)
+        ck.count(1, 'vtext:printed')
+        if of:
+            fails.append(('verilog-text:print', 'verilog.py grammar: ' + of, {'component': 'verilog.GRAMMAR / lark', 'input': d, 'actual': of}))
+        vcases.append(c)
+        vmeta.append(d)
+    nc, nd = vt.name_cases(trng, ck.scale(60, 400))
+    vcases += nc
+    vmeta += nd
+    # a netlist of the supported subset that ends in a line comment without line break: recorded, see the report (lark raises)
+    eof_probe = {}
+    for tail in ('// end', '// end\n', '/* end */'):
+        tr, exc = vt.raw_tree('module m (a); input a; endmodule ' + tail)
+        eof_probe[tail] = 'accepted' if tr is not None else 'raises ' + exc
+    ck.cov['vtext_eof_comment_probe'] = eof_probe
+    vsize = 60
+    vchunks = [vcases[i:i + vsize] for i in range(0, len(vcases), vsize)]
+    # verilog.parse as a whole
+    ccases, cmeta = [], []
+
+    def add_circ(text, tl, bf, desc):
+        c, d, of = vt.circ_case(text, tl, bf, desc, through_parse=desc['stream'] == 'netlist' or len(ccases) % 8 == 0)
+        if of:
+            fails.append(('verilog-text:parse', 'verilog.parse: ' + of, {'component': 'verilog.parse', 'input': d, 'actual': of}))
+        if c is None:
+            ck.count(1, 'vtext-circuit:' + desc['stream'] + ':outside-model-domain')
+            return
+        ck.count(1, 'vtext-circuit:' + desc['stream'] + (':raises-' + d['raises'] if 'raises' in d else ''))
+        ccases.append(c)
+        cmeta.append(d)
+    for k, (text, lib) in enumerate(vnet_texts[:ck.scale(36, 400)]):
+        add_circ(text, getattr(_tl, lib), bool(k & 1), {'stream': 'netlist'})
+    for _ in range(ck.scale(110, 2500)):
+        text, tl = vc.gen_wild_module(trng)
+        add_circ(text, tl, trng.random() < 0.5, {'stream': 'wild'})
+    for text in vt.CORNER_TEXTS:
+        add_circ(text, _tl.NANGATE, False, {'stream': 'corner'})
+    for _ in range(ck.scale(60, 1000)):
+        tree = vt.gen_tree(trng)
+        add_circ(vt.render(vt.toks_tree(tree), trng), _tl.NANGATE, trng.random() < 0.5, {'stream': 'rendered'})
+    csize = 25
+    cchunks = [ccases[i:i + csize] for i in range(0, len(ccases), csize)]
+    _t1 = _time.time()
+    vouts = ck.coq_eval_many('vx', [vt.cases_file(ch) for ch in vchunks] + [vt.circ_cases_file(ch) for ch in cchunks], jobs=12)
+    ck.cov['vtext_seconds'] = {'generate': round(_t1 - _t0, 1), 'coq': round(_time.time() - _t1, 1)}
+    vouts_t, vouts_c = vouts[:len(vchunks)], vouts[len(vchunks):]
+    vbad = [ci * vsize + j for ci, (ok, out) in enumerate(vouts_t) for j in ((cg.parse_nat_list(out) if ok else None) or [])]
+    cbad = [ci * csize + j for ci, (ok, out) in enumerate(vouts_c) for j in ((cg.parse_nat_list(out) if ok else None) or [])]
+    vran = all(ok and cg.parse_nat_list(out) is not None for ok, out in vouts)
+    verr = next((out[-600:] for ok, out in vouts if not ok), '')
+    n_acc = sum(1 for d in vmeta if d.get('kind') == 'vlog-text' and not d['raises'])
+    ck.obligation(f'Coq transcription of verilog.GRAMMAR as lark parses it (Model/VerilogText.v: contextual lexer -- scanner class per parser state, '
+                  f'keyword re-typing, ignore rules, the three name patterns -- and LALR parser) = the RAW tree of Lark(GRAMMAR, parser="lalr") on '
+                  f'{len(vcases)} cases: lark\'s own tables (accept set of every state entered by a terminal vs mode_after; order / embedded keywords / '
+                  f'pattern sources of every scanner: {len(tab_fails)} differences), generated trees written with arbitrary ignored text (ground truth), '
+                  f'generated netlists and their character mutations, the fixed probes, a malformed stream ({v_rej["malformed"]} rejected by lark) and '
+                  f'token soup ({v_rej["soup"]} rejected) -- both must reject; {n_acc} texts accepted; print_tree output read back by lark; '
+                  f'VerilogTransformer.name = name_cb',
+                  vran and not vbad and not tab_fails and v_rej['malformed'] > 0 and v_rej['soup'] > 0 and n_acc > 0, 'correspondence',
+                  f'failing cases {vbad[:8]} {[vmeta[b] for b in vbad[:2]]} {tab_fails[:2]} {verr}')
+    n_craise = sum(1 for d in cmeta if 'raises' in d)
+    ck.obligation(f'circuits_of_text (Model/VerilogText.v: lexer, parser, child callbacks, then elab_module) = verilog.parse(text, tlib, branchforks) on '
+                  f'{len(ccases)} texts (generated netlists, wild modules, probes, rendered trees; {n_craise} raise): every node name / kind, every line, '
+                  f'io_nodes of every circuit, or both raise', vran and not cbad, 'correspondence',
+                  f'failing cases {cbad[:8]} {[{k: v for k, v in cmeta[b].items()} for b in cbad[:2]]} {verr}')
+    if vbad and not unknown() and vmeta[vbad[0]].get('kind') == 'vlog-name':
+        d = vmeta[vbad[0]]
+        fails.append(('verilog-text:name', f'VerilogTransformer.name({d["token"]!r}) = {d["got"]!r}: not the token without its backslash and its last character '
+                      '(Model/VerilogText.v name_cb)', {'component': 'verilog.VerilogTransformer.name', 'input': d, 'actual': d['got']}))
+    elif vbad and not unknown():
+        d = vmeta[vbad[0]]
+        fails.append(('verilog-text:model-disagrees', f'lark with verilog.GRAMMAR and its transcription (Model/VerilogText.v parse_verilog) read a text differently '
+                      f'(stream {d.get("stream", d.get("kind"))}): {str(d.get("text", d))[:300]!r}',
+                      {'component': 'verilog.GRAMMAR / lark vs Model/VerilogText.v', 'input': d, 'actual': 'raw tree differs / one of them rejects'}))
+    if cbad and not unknown():
+        d = cmeta[cbad[0]]
+        fails.append(('verilog-text:circuit-disagrees', f'verilog.parse and circuits_of_text build different circuits from a text (stream {d["stream"]}, '
+                      f'branchforks={d["branchforks"]}' + (f', raises {d["raises"]}' if 'raises' in d else '') + ')',
+                      {'component': 'verilog.parse vs Model/VerilogText.v circuits_of_text', 'input': d, 'actual': 'see obligation'}))
     seen = {}
     for key, what, rp in fails:
         seen.setdefault(key, []).append((what, rp))
@@ -281,7 +401,7 @@ def replay(rp):
     inp = rp['input']
     if inp.get('kind') == 'bf-clash':
         return vc.bf_diff(inp['verilog'], inp['lib']) is not None
-    if inp.get('kind') in ('bench-text', 'bench-print'):
+    if inp.get('kind') in ('bench-text', 'bench-print', 'vlog-text', 'vlog-print', 'vlog-circuit', 'vlog-tables', 'vlog-name', 'vlog-mode'):
         return True     # text cases are regenerated from the seed; the text and what lark did with it are in the replay
     if 'netlist' in inp:
         net = vg.Net.from_description(inp['netlist'])
